@@ -24,6 +24,9 @@ EventErrs(s, e) ==
     [] e.a = "format" ->
          Fail("C20.roundtrip", C20roundtrip(s, PR(e.p), Out(e))) \cup
          Fail("C20.format", C20format(PR(e.p), Out(e)))
+    [] e.a = "format_sep" ->
+         Fail("C20.roundtrip_separator", C20roundtrip(s, PR(e.p), Out(e))) \cup
+         Fail("C20.format_separator", C20format(PR(e.p), Out(e)))
     [] e.a = "delete" ->
          Fail("C20.delete_component", C20delete(PR(e.p), e.comp, e.out))
     [] e.a = "parse_sep" ->
